@@ -221,7 +221,7 @@ func ruleOpExhaustive(c *Ctx, pkgs ...string) {
 
 func runC11(c *Ctx) {
 	P := c.P
-	c.Explanation = "Decides structural clauses: (R-EDIT-SPAN) every Edit built by the edit-script constructor takes X from a slice expression over lhs and Y from one over rhs — 'the very spans of lhs and rhs', not equal-looking copies — and the bounds of an X span are never index variables of rhs and vice versa. (R-EDIT-OPTABLE) every Edit literal in packages slice and mdiff sets exactly the fields the documentation of Edit assigns to its opcode (Drop/Emit: X; Copy: Y; Replace: X and Y). (R-OP-EXHAUSTIVE) every switch over EditOp in non-test code handles all four opcodes or has a default arm that panics or returns an error (the two half-switches of the context format are exempt by the format's definition). Does NOT decide that applying the script yields rhs, minimality (LCS length), canonical form, emptiness iff equal, or the exact span bounds."
+	c.Explanation = "Decides structural clauses: (R-EDIT-SPAN) every Edit built by the edit-script constructor takes X from a slice expression over lhs and Y from one over rhs — 'the very spans of lhs and rhs', not equal-looking copies — and the bounds of an X span are never index variables of rhs and vice versa. (R-EDIT-OPTABLE) every Edit literal in packages slice and mdiff sets exactly the fields the documentation of Edit assigns to its opcode (Drop/Emit: X; Copy: Y; Replace: X and Y). (R-OP-EXHAUSTIVE) every switch over EditOp in non-test code handles all four opcodes or has a default arm that panics or returns an error (the two half-switches of the context format are exempt by the format's definition). (cursor families) a cursor family of the builder that indexes or bounds spans of an input never also indexes the common subsequence; (R-SIBLING-GUARD) guards before a comparison of an element of each input constrain both indices or neither. Does NOT decide that applying the script yields rhs, minimality (LCS length), canonical form, emptiness iff equal, or the exact span bounds."
 	c.rule("R-EDIT-SPAN", 4, "X spans are slices of lhs, Y spans slices of rhs; span bounds use the matching side's index variables")
 	c.rule("R-EDIT-OPTABLE", 6, "Op ↔ fields as documented on every Edit literal with a constant opcode")
 	c.rule("R-OP-EXHAUSTIVE", 3, "every EditOp switch is exhaustive or has a strict default")
